@@ -145,6 +145,22 @@ impl Obj {
             Obj::Wo32(p) => Obj::Wo32(p.clone()),
         }
     }
+    /// `Clone::clone_from` (in-place form) exists only between objects of the same type
+    fn assign_from(&mut self, o: &Obj) -> bool {
+        match (self, o) {
+            (Obj::Rw8(a), Obj::Rw8(b)) => a.clone_from(b),
+            (Obj::Rw16(a), Obj::Rw16(b)) => a.clone_from(b),
+            (Obj::Rw32(a), Obj::Rw32(b)) => a.clone_from(b),
+            (Obj::Ro8(a), Obj::Ro8(b)) => a.clone_from(b),
+            (Obj::Ro16(a), Obj::Ro16(b)) => a.clone_from(b),
+            (Obj::Ro32(a), Obj::Ro32(b)) => a.clone_from(b),
+            (Obj::Wo8(a), Obj::Wo8(b)) => a.clone_from(b),
+            (Obj::Wo16(a), Obj::Wo16(b)) => a.clone_from(b),
+            (Obj::Wo32(a), Obj::Wo32(b)) => a.clone_from(b),
+            _ => return false,
+        }
+        true
+    }
     /// `==` exists only between objects of the same type
     fn eq(&self, o: &Obj) -> Option<bool> {
         Some(match (self, o) {
@@ -189,7 +205,7 @@ pub fn gen(seed: u64) -> Replay {
     }
     let mut next_id = 0u64;
     for _ in 0..n {
-        let op = if ids.is_empty() { 0 } else { rng.weighted(&[3, 6, 6, 2, 2, 2, 2, 2]) };
+        let op = if ids.is_empty() { 0 } else { rng.weighted(&[3, 6, 6, 2, 2, 2, 2, 2, 2]) };
         match op {
             0 => {
                 let access = *rng.pick(&["rw", "ro", "wo"]);
@@ -233,6 +249,16 @@ pub fn gen(seed: u64) -> Replay {
                 let a = rng.pick(&ids).0;
                 let b = rng.pick(&ids).0;
                 steps.push(json!({"op": "ne", "a": a, "b": b}));
+            }
+            8 => {
+                // dst.clone_from(&src) between two objects of the same type
+                let src = rng.pick(&ids).clone();
+                let c: Vec<usize> = (0..ids.len()).filter(|&k| ids[k].1 == src.1 && ids[k].2 == src.2 && ids[k].0 != src.0).collect();
+                if !c.is_empty() {
+                    let k = c[rng.below(c.len() as u64) as usize];
+                    ids[k].3 = src.3;
+                    steps.push(json!({"op": "clone_from", "id": src.0, "dst": ids[k].0}));
+                }
             }
             k => {
                 let c: Vec<_> = ids.iter().filter(|x| x.1 != "wo").collect();
@@ -282,6 +308,26 @@ pub fn run(rp: &Replay, st: &mut Stats) -> Option<Violation> {
                 if let Some((o, p)) = objs.get(&src) {
                     let c = (o.dup(), *p);
                     objs.insert(dst, c);
+                }
+            }
+            "clone_from" => {
+                // dst.clone_from(&src): afterwards dst refers to src's port
+                let (src, dst) = (s["id"].as_u64().unwrap(), s["dst"].as_u64().unwrap());
+                if src != dst {
+                    if let Some((so, sp)) = objs.get(&src).map(|(o, p)| (o.dup(), *p)) {
+                        if let Some(d) = objs.get_mut(&dst) {
+                            let r = sut_call("clone_from", || d.0.assign_from(&so));
+                            match r {
+                                Ok(true) => {
+                                    st.calls += 1;
+                                    d.1 = sp;
+                                    st.count("clone_from");
+                                }
+                                Ok(false) => {}
+                                Err(m) => return Some(viol(&["C18"], "panic", i, format!("clone_from panicked: {m}"))),
+                            }
+                        }
+                    }
                 }
             }
             "eq" => {
